@@ -369,7 +369,8 @@ func (p *Plugin) out(workerData *pipeline.WorkerData, batch *pipeline.Batch) err
 			if fieldVal == nil {
 				continue
 			}
-			pipeline.CreateNestedField(root, cf.toPath).MutateToNode(fieldVal)
+			// copy by value: MutateToNode would share the children of fieldVal with the event
+			pipeline.CreateNestedField(root, cf.toPath).MutateToJSON(root, fieldVal.EncodeToString())
 		}
 		outBuf = root.Encode(outBuf)
 		_ = root.DecodeString("{}")
